@@ -945,8 +945,8 @@ impl Model {
             if k >= 40 {
                 break;
             }
-            let op = b % 5;
-            script.push(op);
+            let (op, k) = itop_decode(*b);
+            script.push(op | ((k as u8) << 4));
             match op {
                 ITOP_NEXT => {
                     if f == bk {
@@ -969,8 +969,38 @@ impl Model {
                     p.ev.push(Ev::Len(bk - f));
                     p.ev.push(Ev::Len(bk - f));
                 }
+                ITOP_NTH => {
+                    // as Iterator::nth: k items are skipped; an overshoot exhausts the iterator
+                    if k >= bk - f {
+                        f = bk;
+                        p.ev.push(Ev::NoneRet);
+                    } else {
+                        f += k;
+                        p.ev.push(Ev::Val(tags[f]));
+                        f += 1;
+                    }
+                }
+                ITOP_NTH_BACK => {
+                    if k >= bk - f {
+                        bk = f;
+                        p.ev.push(Ev::NoneRet);
+                    } else {
+                        bk -= k + 1;
+                        p.ev.push(Ev::Val(tags[bk]));
+                    }
+                }
                 _ if p.r.kind == IT_TYPED_MUT => {
                     // slice::IterMut is not Clone: report the length instead
+                    p.ev.push(Ev::Len(bk - f));
+                }
+                ITOP_REST => {
+                    // clone.count(), clone.last(): original unaffected
+                    p.ev.push(Ev::Len(bk - f));
+                    if f == bk {
+                        p.ev.push(Ev::NoneRet);
+                    } else {
+                        p.ev.push(Ev::Val(tags[bk - 1]));
+                    }
                     p.ev.push(Ev::Len(bk - f));
                 }
                 _ => {
